@@ -199,7 +199,8 @@ def oprStep (s : PState) (name : String) : Except PErr PState :=
 /-- one token -/
 def step (s : PState) : Tok → Except PErr PState
   | .operand k text =>
-    if s.prev = .operand ∨ s.prev = .rparen then .error .token
+    -- two operands without an operator; also directly after `%` (`fix:` commit)
+    if s.prev = .operand ∨ s.prev = .rparen ∨ s.prev = .percent then .error .token
     else .ok (pushOperand s (.operand k text))
   | .opr name =>
     -- a percent sign or a binary operator needs its (left) operand (`fix:` commits): otherwise `TokenError`;
@@ -214,14 +215,14 @@ def step (s : PState) : Tok → Except PErr PState
     | .error e => .error e
     | .ok (st', out') => if st'.isEmpty then .error .formula else .ok { st := st', out := out', prev := .sep }
   | .fn name =>
-    -- a call cannot directly follow an operand or `)` (`fix:` commit)
-    if s.prev = .operand ∨ s.prev = .rparen then .error .token else .ok (fnStep s name .any false)
+    -- a call cannot directly follow an operand, `)` or `%` (`fix:` commits)
+    if s.prev = .operand ∨ s.prev = .rparen ∨ s.prev = .percent then .error .token else .ok (fnStep s name .any false)
   | .lp =>
-    if s.prev = .operand ∨ s.prev = .rparen then .error .token
+    if s.prev = .operand ∨ s.prev = .rparen ∨ s.prev = .percent then .error .token
     else .ok { st := .lp 0 .pos false :: s.st, out := s.out, prev := .lparen }
   | .rp => (rparenStep s false).map (·.1)
   | .arrStart =>
-    if s.prev = .operand ∨ s.prev = .rparen then .error .token
+    if s.prev = .operand ∨ s.prev = .rparen ∨ s.prev = .percent then .error .token
     else .ok (fnStep (fnStep s "ARRAY" .pos true) "ARRAY" .pos true)
   | .arrSep =>
     match rparenStep s true with
